@@ -58,7 +58,9 @@ class InterestTreeNode:
         remaining = []
         for entry in self.pending_list:
             if bytes(entry.implicit_sha256) == bytes(implicit_sha256):
-                entry.future.set_exception(InterestNack(nack_reason))
+                # The future is already cancelled if the caller cancelled the Interest and has not run yet
+                if not entry.future.done():
+                    entry.future.set_exception(InterestNack(nack_reason))
             else:
                 remaining.append(entry)
         self.pending_list = remaining
@@ -77,7 +79,9 @@ class InterestTreeNode:
             else:
                 passed = False
             if passed:
-                entry.future.set_result(data)
+                # The future is already cancelled if the caller cancelled the Interest and has not run yet
+                if not entry.future.done():
+                    entry.future.set_result(data)
             else:
                 unsatisfied_entries.append(entry)
         if unsatisfied_entries:
